@@ -7,6 +7,7 @@ import ast
 from ..core import Repo, Report, call_name, norm, parents_map, walk_local
 from ..dataflow import DefUse
 from ..sites import guard_chain
+from .util import ckey
 
 
 def mst_colour_keys(repo: Repo, rep: Report, rule: str) -> None:
@@ -33,7 +34,7 @@ def mst_colour_keys(repo: Repo, rep: Report, rule: str) -> None:
             st = pmm[st]
         guarded = how == "setdefault" or any(isinstance(t, ast.Compare) and isinstance(t.ops[0], ast.NotIn) and norm(t.comparators[0]) == "self._edge_wire_colors" and norm(t.left) == norm(key) and pol
                                             for t, pol in guard_chain(mst, st, pmm))
-        rep.check(guarded, rule, f"{mst.short}: colour under position-derived key `{norm(key)}` never replaces an existing entry",
+        rep.check(guarded, rule, f"{mst.short}: colour under position-derived key `{ckey(mst, key)}` never replaces an existing entry",
                   "guarded by `not in` / setdefault" if guarded else
                   "which pairs the spanning tree joins depends on placement; an unguarded store under such a key can overwrite the colour recorded for a real producer->consumer edge of the same signal, "
                   "so the consumer's operand reads the wrong network", mst.loc(n))
@@ -94,7 +95,7 @@ def reads_repointed_only_for_own_cell(repo: Repo, rep: Report, rule: str) -> Non
                 st = pm[st]
             gs = [(norm(t), pol) for t, pol in guard_chain(opt, st, pm)]
             ok = any(pol and mem_var is not None and (g.startswith(f"{mem_var} == op.memory_id") or g.startswith(f"op.memory_id == {mem_var}")) for g, pol in gs)
-            rep.check(ok, rule, f"{opt.short}: `{norm(x)[:50]}` only for reads of the cell being optimised",
+            rep.check(ok, rule, f"{opt.short}: `{ckey(opt, x)}` only for reads of the cell being optimised",
                       "guarded by the memory id" if ok else "reads of *other* memory cells are re-pointed at this cell's arithmetic node: two independent cells interfere", opt.loc(x))
     rep.floor(rule, "read re-pointing sites", n, 2)
 
